@@ -996,6 +996,7 @@ func (p *H265Payloader) Payload(mtu uint16, payload []byte) [][]byte { //nolint:
 			naluHeader := newH265NALUHeader(nalu[0], nalu[1])
 
 			// the nalu header is omitted from the fragmentation packet payload
+			fullNALU := nalu
 			nalu = nalu[h265NaluHeaderSize:]
 
 			if maxFUPayloadSize <= 0 || len(nalu) == 0 {
@@ -1004,6 +1005,15 @@ func (p *H265Payloader) Payload(mtu uint16, payload []byte) [][]byte { //nolint:
 
 			// flush any buffered aggregation packets.
 			flushBufferedNals()
+
+			if len(nalu) <= maxFUPayloadSize {
+				// a NAL unit must not be sent as a single FU (RFC 7798 section 4.4.3):
+				// what fits one FU also fits a single NAL unit packet.
+				bufferedNALUs = append(bufferedNALUs, fullNALU)
+				flushBufferedNals()
+
+				return
+			}
 
 			fullNALUSize := len(nalu)
 			for len(nalu) > 0 {
